@@ -37,7 +37,7 @@ ASSUMPTIONS = [
 NSHARDS = {'quick': 16, 'thorough': 16}
 
 KINDS = ['builtin', 'builtin_called', 'user', 'user_called', 'dotted', 'module', 'coroutine', 'assert', 'noted', 'syntax',
-         'group', 'chained']
+         'group', 'chained', 'indent', 'taberror']
 MSGS = {'empty': None, 'plain': 'some detail', 'colons': 'a: b: c', 'multi': 'line1\nline2', 'dots': 'pre ... post',
         # an error relayed from elsewhere: the message quotes another traceback
         'relayed': 'worker failed\nTraceback (most recent call last):\nValueError: inner'}
@@ -113,6 +113,12 @@ def raising_source(kind, msg):
     if kind == 'syntax':
         # raised by the compiler at run time: its report has source context lines before the message
         return [], 'compile("x = = 1", %s, "exec")' % (m or '"<s>"')
+    if kind == 'indent':
+        # errors of the SyntaxError family whose location lies in the leading blanks of the line: the interpreter prints
+        # the source line but no caret line under it
+        return [], 'compile("  x = 1", %s, "exec")' % (m or '"<s>"')
+    if kind == 'taberror':
+        return [], 'compile("if 1:\\n\\tx = 1\\n        y = 2\\n", %s, "exec")' % (m or '"<s>"')
     if kind == 'group':
         return [], 'raise ExceptionGroup(%s, [ValueError(1), KeyError(2)])' % (m or '"eg"')
     if kind == 'chained':
@@ -347,9 +353,9 @@ def all_cells():
     cells = []
     for kind in KINDS:
         for mk in MSGS:
-            if kind in ('assert', 'noted', 'syntax', 'group') and mk == 'empty':
+            if kind in ('assert', 'noted', 'syntax', 'group', 'indent', 'taberror') and mk == 'empty':
                 continue
-            if kind == 'syntax' and mk != 'plain':
+            if kind in ('syntax', 'indent', 'taberror') and mk != 'plain':
                 continue        # the compiler words the message itself
             for pos in POSITIONS:
                 for wf in WANTS:
